@@ -27,20 +27,23 @@ Ltac Zify.zify_post_hook ::= Z.to_euclidean_division_equations.
 (* 2  well-formed environments, well-scoped programs, representation                   *)
 (* ================================================================================= *)
 (* well-scoped expressions: variables in scope, literals words, no / % *)
-Fixpoint oscoped (w : Z) (ng : nat) (ni : nat) (o : iopd) : Prop :=
+Definition yscoped (ni nb : nat) (v : yloc) : Prop :=
+  match v with YSlot j => (j < nb)%nat | YLow i => (i < ni)%nat end.
+Fixpoint oscoped (w : Z) (ng : nat) (ni nb : nat) (o : iopd) : Prop :=
   match o with
   | OLit z => - (Machine.W w / 2) <= z < Machine.W w / 2
   | OVar i => (i < ni)%nat
-  | OArith op x y => op_ok op /\ oscoped w ng ni x /\ oscoped w ng ni y
-  | OUn _ x => oscoped w ng ni x
+  | OArith op x y => op_ok op /\ oscoped w ng ni nb x /\ oscoped w ng ni nb y
+  | OUn _ x => oscoped w ng ni nb x
   | OGlob g => (g < ng)%nat
+  | OByte v => yscoped ni nb v
   end.
 Fixpoint bscoped (w : Z) (ng nbg : nat) (ni nb : nat) (e : bexpr) : Prop :=
   match e with
   | BLit _ => True
   | BVar (BLocal j) => (j < nb)%nat
   | BVar (BGlobal h) => (h < nbg)%nat
-  | BCmp _ a b => oscoped w ng ni a /\ oscoped w ng ni b
+  | BCmp _ a b => oscoped w ng ni nb a /\ oscoped w ng ni nb b
   | BNot e1 => bscoped w ng nbg ni nb e1
   | BAnd e1 e2 | BOr e1 e2 => bscoped w ng nbg ni nb e1 /\ bscoped w ng nbg ni nb e2
   end.
@@ -49,27 +52,27 @@ Fixpoint bscoped (w : Z) (ng nbg : nat) (ni nb : nat) (e : bexpr) : Prop :=
    them, the runtime library is loaded); cf f n: function f may be called with n arguments *)
 Fixpoint sscoped (w : Z) (ng nbg : nat) (lib : Prop) (cf : nat -> nat -> Prop) (ni nb : nat) (inloop : bool) (s : stmt) : Prop :=
   match s with
-  | SDeclI o => oscoped w ng ni o
-  | SAssignI i o => (i < ni)%nat /\ oscoped w ng ni o
+  | SDeclI o => oscoped w ng ni nb o
+  | SAssignI i o => (i < ni)%nat /\ oscoped w ng ni nb o
   | SDeclB e => bscoped w ng nbg ni nb e
   | SAssignB j e => (j < nb)%nat /\ bscoped w ng nbg ni nb e
-  | SWrite (WrByte o) => oscoped w ng ni o
+  | SWrite (WrByte o) => oscoped w ng ni nb o
   | SWrite _ | SWriteln => True
-  | SWriteI _ o => oscoped w ng ni o /\ lib              (* the runtime library must be there *)
+  | SWriteI _ o => oscoped w ng ni nb o /\ lib              (* the runtime library must be there *)
   | SWriteB _ e => bscoped w ng nbg ni nb e /\ lib
   | SIf c s1 s2 => bscoped w ng nbg ni nb c /\ ssscoped w ng nbg lib cf ni nb inloop s1 /\ ssscoped w ng nbg lib cf ni nb inloop s2
   | SWhile c b k => bscoped w ng nbg ni nb c /\ ssscoped w ng nbg lib cf ni nb true b /\ ssscoped w ng nbg lib cf ni nb inloop k
   | SBlock ss => ssscoped w ng nbg lib cf ni nb inloop ss
   | SBreak | SContinue => inloop = true
-  | SDeclDiv op a b => (op = SDiv \/ op = SMod) /\ oscoped w ng ni a /\ oscoped w ng ni b /\ lib
-  | SAssignDiv i op a b => (i < ni)%nat /\ (op = SDiv \/ op = SMod) /\ oscoped w ng ni a /\ oscoped w ng ni b /\ lib
+  | SDeclDiv op a b => (op = SDiv \/ op = SMod) /\ oscoped w ng ni nb a /\ oscoped w ng ni nb b /\ lib
+  | SAssignDiv i op a b => (i < ni)%nat /\ (op = SDiv \/ op = SMod) /\ oscoped w ng ni nb a /\ oscoped w ng ni nb b /\ lib
   | SCall dst f args =>
       match dst with DAssign i => (i < ni)%nat | DAssignG g => (g < ng)%nat | _ => True end /\
-      cf f (length args) /\ Forall (oscoped w ng ni) args /\ lib
-  | SReturn (Some o) => oscoped w ng ni o
+      cf f (length args) /\ Forall (oscoped w ng ni nb) args /\ lib
+  | SReturn (Some o) => oscoped w ng ni nb o
   | SReturn None => True
-  | SAssignG g o => (g < ng)%nat /\ oscoped w ng ni o
-  | SAssignGDiv g op a b => (g < ng)%nat /\ (op = SDiv \/ op = SMod) /\ oscoped w ng ni a /\ oscoped w ng ni b /\ lib
+  | SAssignG g o => (g < ng)%nat /\ oscoped w ng ni nb o
+  | SAssignGDiv g op a b => (g < ng)%nat /\ (op = SDiv \/ op = SMod) /\ oscoped w ng ni nb a /\ oscoped w ng ni nb b /\ lib
   | SAssignBG h e => (h < nbg)%nat /\ bscoped w ng nbg ni nb e
   end
 with ssscoped (w : Z) (ng nbg : nat) (lib : Prop) (cf : nat -> nat -> Prop) (ni nb : nat) (inloop : bool) (ss : stmts) : Prop :=
@@ -177,23 +180,55 @@ Proof.
   intros Wf Rp Hj Hh. pose proof (wfs_b S Wf j Hj) as Ho. destruct Wf, Rp. destruct rp_regs0.
   unfold slot_ok, dj. repeat split; try lia. apply inb_true; lia.
 Qed.
-Lemma rep_oexp S s m o hi : wf_senv S -> rep S s m -> oscoped w ng (length (ioffs S)) o -> hi <= FP m - top S ->
+(* the byte a byte read takes: inside the frame; its value is the source value *)
+Lemma lb_lw_r m a : wf_mem m -> lb m a = lw m a mod 256.
+Proof.
+  intros Wf. unfold lb, Machine.lw, Machine.wn. destruct (Z.to_nat w) as [|k] eqn:E; [lia|].
+  cbn [loadn]. pose proof (Wf a). rewrite (Z.mul_comm 256), Z.mod_add by lia. symmetry. apply Z.mod_small. lia.
+Qed.
+Lemma sgn_mod256_r x : inrange w x -> sgn x mod 256 = x mod 256.
+Proof.
+  intros Hx. assert (Hk : W = 256 * 2 ^ (8 * w - 8)).
+  { unfold Machine.W. change 256 with (2 ^ 8). rewrite <- Z.pow_add_r by lia. f_equal. lia. }
+  destruct (sgn_cases w x Hx) as [[_ E]|[_ E]]; rewrite E; [reflexivity|].
+  rewrite Hk. replace (x - 256 * 2 ^ (8 * w - 8)) with (x + (- 2 ^ (8 * w - 8)) * 256) by lia. apply Z.mod_add. lia.
+Qed.
+Lemma rep_slot_y S s m v hi : wf_senv S -> rep S s m -> yscoped (length (ioffs S)) (length (boffs S)) v -> hi <= FP m - top S ->
+  slot_ok w R lo hi m (byte_off (env_of S) v) 1.
+Proof.
+  intros Wf Rp Sc Hh. destruct v as [j|i]; cbn [yscoped byte_off env_of bool_off int_off] in *.
+  - apply (rep_slot_b S s); assumption.
+  - destruct (rep_slot_i S s m i hi Wf Rp Sc Hh) as [O1 [O2 [O3 O4]]]. unfold slot_ok. split; [exact O1|]. split; [exact O2|]. split.
+    + unfold inb in *. apply andb_true_iff in O3. destruct O3 as [X1 X2]. apply Z.leb_le in X1, X2. apply andb_true_iff. split; apply Z.leb_le; lia.
+    + unfold dj in *. lia.
+Qed.
+Lemma rep_yval S s m v : wf_senv S -> rep S s m -> yscoped (length (ioffs S)) (length (boffs S)) v ->
+  lb m (FP m - byte_off (env_of S) v) = ieval w s (OByte v).
+Proof.
+  intros Wf Rp Sc. destruct v as [j|i]; cbn [yscoped byte_off env_of bool_off int_off ieval] in *.
+  - apply (proj1 (rp_b S s m Rp j Sc)).
+  - pose proof (lo_wf w R lo m (rp_regs S s m Rp)) as Wfm. rewrite (lb_lw_r m _ Wfm). rewrite <- (rp_i S s m Rp i Sc).
+    symmetry. apply sgn_mod256_r. apply (lw_range w Hw1). exact Wfm.
+Qed.
+Lemma rep_oexp S s m o hi : wf_senv S -> rep S s m -> oscoped w ng (length (ioffs S)) (length (boffs S)) o -> hi <= FP m - top S ->
   oexp_ok w R (env_of S) lo hi m o.
 Proof.
-  intros Wf Rp Sc Hh. induction o as [z|i|op x IHx y IHy|u x IHx|g]; cbn [oscoped oexp_ok] in *; try tauto.
+  intros Wf Rp Sc Hh. induction o as [z|i|op x IHx y IHy|u x IHx|g|yj]; cbn [oscoped oexp_ok] in *; try tauto.
   - cbn [env_of int_off]. apply (rep_slot_i S s); assumption.
   - destruct (rp_g S s m Rp g Sc) as [G0 [G1 _]]. pose proof (rp_gl S s m Rp) as Hg. pose proof (wfs_fb S Wf) as Ofb.
     pose proof (rp_regs S s m Rp) as L. destruct L, Rp. unfold gword_ok, dj. repeat split; try assumption; lia.
+  - apply (rep_slot_y S s); assumption.
 Qed.
-Lemma rep_sval S s m o : wf_senv S -> rep S s m -> oscoped w ng (length (ioffs S)) o ->
+Lemma rep_sval S s m o : wf_senv S -> rep S s m -> oscoped w ng (length (ioffs S)) (length (boffs S)) o ->
   sval w R (env_of S) m o = ieval w s o.
 Proof.
-  intros Wf Rp. induction o as [z|i|op x IHx y IHy|u x IHx|g]; cbn [oscoped sval ieval]; intros Sc.
+  intros Wf Rp. induction o as [z|i|op x IHx y IHy|u x IHx|g|yj]; cbn [oscoped sval ieval]; intros Sc.
   - reflexivity.
   - cbn [env_of int_off]. apply (rp_i S s m Rp i Sc).
   - destruct Sc as [_ [Sx Sy]]. rewrite IHx, IHy by assumption. reflexivity.
   - destruct u; rewrite IHx by assumption; reflexivity.
   - apply (rp_g S s m Rp g Sc).
+  - apply (rep_yval S s m yj Wf Rp Sc).
 Qed.
 Lemma rep_beval S s m e : wf_senv S -> rep S s m -> bscoped w ng nbg (length (ioffs S)) (length (boffs S)) e ->
   beval w R (env_of S) m e = bevals w s e.
@@ -242,7 +277,7 @@ Proof.
 Qed.
 (* the semantics does not look at the stack top *)
 Lemma sval_top E t m o : sval w R (with_top E t) m o = sval w R E m o.
-Proof. induction o as [z|i|op x IHx y IHy|u x IHx|g]; cbn [sval]; [reflexivity | reflexivity | now rewrite IHx, IHy | destruct u; now rewrite IHx | reflexivity]. Qed.
+Proof. induction o as [z|i|op x IHx y IHy|u x IHx|g|yj]; cbn [sval]; [reflexivity | reflexivity | now rewrite IHx, IHy | destruct u; now rewrite IHx | reflexivity | reflexivity]. Qed.
 Lemma beval_top E t m e : beval w R (with_top E t) m e = beval w R E m e.
 Proof.
   induction e as [b|j|op a b|e IH|e1 IH1 e2 IH2|e1 IH1 e2 IH2]; cbn [beval];
@@ -631,7 +666,7 @@ Qed.
 
 (* ---------- int operands in statement position ---------- *)
 (* the hypotheses every expression lowering needs, from the representation *)
-Lemma rep_opd_hyps S s m o keep : wf_senv S -> rep S s m -> oscoped w ng (length (ioffs S)) o ->
+Lemma rep_opd_hyps S s m o keep : wf_senv S -> rep S s m -> oscoped w ng (length (ioffs S)) (length (boffs S)) o ->
   need_int S o keep <= FP m - lo ->
   wsize (env_of S) = w /\ regs_ok w R lo m /\ room_ok w R lo (top S) m /\
   oexp_ok w R (env_of S) lo (FP m - top S) m o /\ Z.of_nat (temps o keep) * w <= FP m - top S - lo.
@@ -643,7 +678,7 @@ Proof.
   split; [apply (rep_oexp w R lo fb gl ng nbg Hw S s m o _ Wf Rp Sc); lia | lia].
 Qed.
 (* get_expr_value(r1, o): evaluate and pop into r1 *)
-Lemma get_value_runs S s m rg o c0 bub c1 v p : rg = R0 \/ rg = R1 -> wf_senv S -> rep S s m -> oscoped w ng (length (ioffs S)) o ->
+Lemma get_value_runs S s m rg o c0 bub c1 v p : rg = R0 \/ rg = R1 -> wf_senv S -> rep S s m -> oscoped w ng (length (ioffs S)) (length (boffs S)) o ->
   need_int S o false <= FP m - lo ->
   eval_opd (env_of S) (top S) rg o false = (c0, bub) -> pop_value rg bub = (c1, v) -> plc (c0 ++ c1) p ->
   exists m2, runs (mk p m) [] (mk (p + size (c0 ++ c1)) m2) /\ agree w R lo (FP m - top S) m m2 /\
@@ -670,25 +705,93 @@ Proof.
   - eapply (agree_trans w R lo); [exact A|]. apply (agree_mono w R lo lo); [destruct Ro; lia | exact A2].
   - assert (S2' : symval w R (pop_mem w R rg bub m1) (sym_of rg bub) = Some (wval w R E m o)) by (rewrite S2, Eb; f_equal; exact V).
     unfold sym_of in S2'. rewrite Pv in S2'. cbn [snd] in S2'. apply (symval_oval w R cmem lab _ _ _ S2').
-  - rewrite Eb in Pv. destruct o as [z|i|op x y|u x|g]; cbn [bub_of pop_value] in Pv; inversion Pv; eauto 6.
+  - rewrite Eb in Pv. destruct o as [z|i|op x y|u x|g|yj]; cbn [bub_of pop_value] in Pv; inversion Pv; eauto 6.
 Qed.
-Lemma sval_ieval S s m o : wf_senv S -> rep S s m -> oscoped w ng (length (ioffs S)) o ->
+Lemma sval_ieval S s m o : wf_senv S -> rep S s m -> oscoped w ng (length (ioffs S)) (length (boffs S)) o ->
   sgn (wval w R (env_of S) m o) = ieval w s o /\ inrange w (wval w R (env_of S) m o).
 Proof.
   intros Wf Rp Sc. pose proof (rp_regs w R lo gl ng nbg S s m Rp) as L.
   split; [|apply (wval_range w R (env_of S) Hw); apply (lo_wf w R lo m L)].
   rewrite (sgn_wval w R (env_of S) lo Hw (FP m - top S) m o (lo_wf w R lo m L)).
-  - apply (rep_sval w R lo fb gl ng nbg S s m o Wf Rp Sc).
+  - apply (rep_sval w R lo fb gl ng nbg Hw S s m o Wf Rp Sc).
   - apply (rep_oexp w R lo fb gl ng nbg Hw S s m o _ Wf Rp Sc). lia.
 Qed.
 
 (* int x = o; *)
-Lemma decl_int_runs S s m o p : wf_senv S -> rep S s m -> oscoped w ng (length (ioffs S)) o ->
+Lemma agree_sb hi m a v : 0 <= a -> lo <= a -> a + 1 <= hi -> agree w R lo hi m (Machine.sb m a v).
+Proof.
+  intros Ha Hl Hh. unfold agree, Machine.sb. split; [reflexivity|]. split.
+  - intros Wfm. apply wf_setb; [exact Wfm | exact Ha | apply Z.mod_pos_bound; lia].
+  - intros x X N0 N1 N2 N3. apply getb_setb_other; [exact Ha | exact X | lia].
+Qed.
+(* a byte stored into the low byte of a zero word: the word is the byte (little endian) *)
+Lemma lw_sb_zero m a b : wf_mem m -> 0 <= a -> 0 <= b < 256 -> lw m a = 0 -> lw (Machine.sb m a b) a = b.
+Proof.
+  intros Wfm Ha Hb Z0. unfold Machine.lw, Machine.sb, Machine.wn in *.
+  destruct (Z.to_nat w) as [|k] eqn:Ek; [lia|]. cbn [loadn] in *.
+  rewrite getb_setb_same. rewrite (loadn_ext k (setb m a (b mod 256)) m (a + 1)) by (intros x Hx; apply getb_setb_other; lia).
+  pose proof (Wfm a). pose proof (loadn_range k m (a + 1) Wfm). rewrite Z.mod_small by lia. lia.
+Qed.
+Definition decl_int_gen (S : senv) (o : iopd) : list aline :=
+  let E := env_of S in
+  let (c0, bub) := eval_opd E (top S) R1 o true in
+  match bub with
+  | BuPushed _ => c0
+  | _ => let (c1, v) := pop_value R1 bub in
+         c0 ++ c1 ++ [AInstr (ASwso (SReg RFp) (SLit (- (top S + ws S))) v)]
+  end.
+Lemma decl_int_not_byte S o : match o with OByte _ => False | _ => True end -> decl_int S o = decl_int_gen S o.
+Proof. destruct o; intros H; try reflexivity; destruct H. Qed.
+Lemma decl_int_runs S s m o p : wf_senv S -> rep S s m -> oscoped w ng (length (ioffs S)) (length (boffs S)) o ->
   need_int S o true <= FP m - lo -> top S + w <= FP m - lo -> plc (decl_int S o) p ->
   exists m', runs (mk p m) [] (mk (p + size (decl_int S o)) m') /\
              rep (push_int S) (mkstore (si s ++ [ieval w s o]) (sb s) (sg s) (sgb s)) m' /\ agree w R lo (FP m - top S) m m'.
 Proof.
   intros Wf Rp Sc Hn Ht P.
+  assert (Hob : (exists j, o = OByte j) \/ match o with OByte _ => False | _ => True end) by (destruct o; eauto).
+  destruct Hob as [[j ->] | Nb0].
+  { (* (x is int) of a byte-sized local: clear the word, push the byte into its low byte *)
+    cbn [oscoped] in Sc. cbn [decl_int size] in P |- *. cbn [plc res_ins res_sym regaddr] in P. destruct P as [C1 [C2 [C3 _]]].
+    pose proof (rp_regs w R lo gl ng nbg S s m Rp) as L. pose proof (wfs_w w fb S Wf) as Ews. pose proof (wfs_fb w fb S Wf) as Ofb.
+    rewrite Ews in C1, C3. set (tp := top S) in *. set (a := FP m - (tp + w)).
+    assert (Ho : 0 < tp + w <= W / 2) by (destruct Rp; unfold tp in *; lia).
+    assert (Ia : inb m a w = true) by (apply inb_true; destruct Rp, L; unfold a, tp in *; lia).
+    assert (Ha : 0 <= a /\ lo <= a /\ a + w <= FP m - tp) by (destruct L; unfold a, tp in *; lia).
+    assert (W0 : wrap 0 = 0) by (apply (wrap_small w); pose proof (W_pos w Hw1); unfold inrange; lia).
+    pose proof (store_word_runs p m (Imm 0) (wrap 0) (tp + w) C1 (oval_imm w cmem m 0) L Ho Ia) as Rn1. fold a in Rn1.
+    set (m1 := sw m a (wrap 0)) in *.
+    assert (A1 : agree w R lo (FP m - tp) m m1) by (apply (agree_sw w R lo Hw); [lia | right; right; lia]).
+    pose proof (regs_ok_agree w R lo Hw _ m m1 L A1) as L1. pose proof (FP_agree w R lo Hw _ m m1 L A1) as F1.
+    pose proof (rep_agree w R lo fb gl ng nbg Hw S s m m1 Wf Rp A1) as Rp1.
+    destruct (rep_slot_y w R lo fb gl ng nbg Hw S s m1 j (FP m1 - top S) Wf Rp1 Sc ltac:(lia)) as [O1 [O2 [O3 _]]].
+    pose proof (act_lbso w code cmem _ m1 r1 (St fp) (Imm (- byte_off (env_of S) j)) (FP m1) (wrap (- byte_off (env_of S) j)) C2
+                  (oval_st w cmem m1 fp (lo_if w R lo m1 L1)) (oval_imm w cmem m1 _)) as Al.
+    rewrite (frame_addr w R lo Hw m1 _ L1 O1) in Al. specialize (Al O3 (lo_i1 w R lo m1 L1)).
+    pose proof (rep_yval w R lo fb gl ng nbg Hw S s m1 j Wf Rp1 Sc) as Bv.
+    set (bv := lb m1 (FP m1 - byte_off (env_of S) j)) in *.
+    assert (Rb : 0 <= bv < 256) by (apply (lb_range m1 _ (lo_wf w R lo m1 L1))).
+    set (m2 := sw m1 r1 bv) in *.
+    assert (A12 : agree w R lo (FP m - tp) m1 m2) by (apply (agree_sw w R lo Hw); [apply (lo_r1 w R lo m1 L1) | auto]).
+    assert (A2 : agree w R lo (FP m - tp) m m2) by (eapply (agree_trans w R lo); [exact A1 | exact A12]).
+    pose proof (regs_ok_agree w R lo Hw _ m m2 L A2) as L2. pose proof (FP_agree w R lo Hw _ m m2 L A2) as F2.
+    assert (Wb : wrap bv = bv) by (apply (wrap_small w); unfold inrange; pose proof (W_ge w Hw1); lia).
+    assert (Ov : oval m2 (St r1) = Some bv) by (unfold m2; rewrite (oval_st_sw_same w Hw cmem m1 _ _ (lo_r1 w R lo m1 L1) (lo_i1 w R lo m1 L1)), Wb; reflexivity).
+    assert (I2 : inb m2 (FP m2 - (tp + w)) 1 = true).
+    { rewrite F2. fold a. unfold m2, m1. rewrite !inb_sw. unfold inb in *. apply andb_true_iff in Ia. destruct Ia as [X1 X2].
+      apply Z.leb_le in X1, X2. apply andb_true_iff. split; apply Z.leb_le; lia. }
+    pose proof (store_byte_runs _ m2 (St r1) bv (tp + w) C3 Ov L2 Ho I2) as Rn3. rewrite F2 in Rn3. fold a in Rn3.
+    set (m3 := Machine.sb m2 a bv) in *.
+    assert (A3 : agree w R lo (FP m - tp) m m3) by (eapply (agree_trans w R lo); [exact A2 | apply agree_sb; lia]).
+    exists m3. split; [|split; [|exact A3]].
+    - change (@nil event) with (@nil event ++ ([] ++ [])). eapply runs_trans; [exact Rn1|].
+      eapply runs_trans; [apply (runs_next act _ _ None Al)|].
+      replace (p + (1 + (1 + (1 + 0)))) with (p + 1 + 1 + 1) by lia. exact Rn3.
+    - apply (rep_push_int S s m); try assumption. fold tp a. rewrite <- Bv.
+      unfold m3. rewrite (lw_sb_zero m2 a bv (lo_wf w R lo m2 L2)); [| lia | exact Rb |].
+      + apply (sgn_small w). pose proof (half_ge_256 w Hw). lia.
+      + unfold m2. rewrite (lw_sw_other w Hw1) by (destruct L1; lia). unfold m1. rewrite (lw_sw_same w Hw1) by lia.
+        rewrite (wrap_wrap w Hw1). exact W0. }
+  rewrite (decl_int_not_byte S o Nb0) in *. unfold decl_int_gen in *.
   destruct (rep_opd_hyps S s m o true Wf Rp Sc Hn) as [HwE [L [Ro [Oe T]]]].
   destruct (sval_ieval S s m o Wf Rp Sc) as [Sv Rv].
   pose proof (wfs_w w fb S Wf) as Ews. pose proof (wfs_fb w fb S Wf) as Ofb.
@@ -710,7 +813,7 @@ Proof.
     split; [|exact A2]. apply (rep_push_int S s m); try assumption.
     rewrite F1. rewrite (lw_sw_same w Hw1) by lia. rewrite (wrap_small w _ Rv). exact Sv. }
   destruct (eval_opd_props w R E lo Hw HwE code cmem lab o tp R1 true m (or_intror eq_refl) L Ro Oe T) as [A [V Cd]].
-  unfold decl_int in *. fold E tp in P |- *.
+  fold E tp in P |- *.
   destruct (eval_opd E tp R1 o true) as [c0 bub] eqn:Ev.
   assert (Eb : bub = bub_of E tp R1 o true) by (pose proof (eval_opd_bub E o tp R1 true) as Q; rewrite Ev in Q; exact Q).
   destruct (is_safe o && negb (is_glob o)) eqn:Sf0.
@@ -720,7 +823,8 @@ Proof.
     assert (Ec : c0 = []) by (destruct o; try discriminate Sf; try discriminate Ng; cbn [eval_opd] in Ev; inversion Ev; reflexivity).
     assert (Bok : bub_ok w R lo (FP m - tp) m bub).
     { pose proof (bub_of_ok w R E lo Hw HwE tp R1 o true m (or_intror eq_refl) L Ro Oe) as Bk. rewrite top_after_bub in Bk.
-      unfold pushed in Bk. rewrite Sf, Ng in Bk. cbn [negb andb orb] in Bk. change (Z.of_nat 0) with 0 in Bk.
+      assert (Vc : is_vac o = true) by (destruct o; try discriminate Sf; try discriminate Ng; reflexivity).
+      unfold pushed in Bk. rewrite Vc in Bk. cbn [negb andb orb] in Bk. change (Z.of_nat 0) with 0 in Bk.
       replace (tp + 0 * wsize E) with tp in Bk by lia. rewrite Eb. apply Bk. destruct Ro; lia. }
     destruct (pop_props w R lo Hw code cmem lab R1 bub _ m (or_intror eq_refl) L Bok) as [A2 [S2 C2]].
     assert (Nb : match bub with BuPushed _ => False | _ => True end) by (rewrite Eb; destruct o; try discriminate Sf; try discriminate Ng; exact I).
@@ -739,18 +843,18 @@ Proof.
     eapply runs_trans; [apply (C2 c1 v p eq_refl P1)|].
     replace (p + (size c1 + (1 + 0))) with (p + size c1 + 1) by lia. exact Rn.
   - (* a computed value: eval_expr has pushed it *)
-    assert (Ebp : bub = BuPushed (tp + w)) by (rewrite Eb; destruct o; try discriminate Sf0; cbn [bub_of]; rewrite HwE; reflexivity).
+    assert (Ebp : bub = BuPushed (tp + w)) by (rewrite Eb; destruct o; try discriminate Sf0; try destruct Nb0; cbn [bub_of]; rewrite HwE; reflexivity).
     rewrite Ebp in *. set (m1 := eval_mem w R E tp R1 o true m) in *.
     exists m1. split; [apply (Cd c0 _ p eq_refl P)|]. split; [|exact A].
     apply (rep_push_int S s m); try assumption.
     assert (Ebv : bub_val w R m1 (bub_of E tp R1 o true) = lw m1 (FP m - (tp + w))).
-    { destruct o; try discriminate Sf0; cbn [bub_of bub_val]; rewrite HwE, (FP_agree w R lo Hw _ m m1 L A); reflexivity. }
+    { destruct o; try discriminate Sf0; try destruct Nb0; cbn [bub_of bub_val]; rewrite HwE, (FP_agree w R lo Hw _ m m1 L A); reflexivity. }
     fold tp. rewrite <- Ebv, V. exact Sv.
 Qed.
 
 (* xi = o; *)
 Lemma assign_int_runs S s m i o p : wf_senv S -> rep S s m -> (i < length (ioffs S))%nat ->
-  oscoped w ng (length (ioffs S)) o -> need_int S o false <= FP m - lo -> plc (assign_int S i o) p ->
+  oscoped w ng (length (ioffs S)) (length (boffs S)) o -> need_int S o false <= FP m - lo -> plc (assign_int S i o) p ->
   exists m', runs (mk p m) [] (mk (p + size (assign_int S i o)) m') /\
              rep S (mkstore (upd i (ieval w s o) (si s)) (sb s) (sg s) (sgb s)) m' /\ fagree m m'.
 Proof.
@@ -779,7 +883,7 @@ Lemma yield_runs p m v x : code p = Some (IYield v) -> oval m v = Some x ->
   runs (mk p m) [EOut (x mod 256)] (mk (p + 1) m).
 Proof. intros C A. apply (runs_next act _ _ (Some (EOut (x mod 256)))). apply (act_yield p m v x); assumption. Qed.
 Lemma write_runs S s m x p : wf_senv S -> rep S s m ->
-  match x with WrByte o => oscoped w ng (length (ioffs S)) o /\ need_int S o false <= FP m - lo | _ => True end ->
+  match x with WrByte o => oscoped w ng (length (ioffs S)) (length (boffs S)) o /\ need_int S o false <= FP m - lo | _ => True end ->
   plc (lower_write S x) p ->
   exists m', runs (mk p m) [EOut (wbyte w s x)] (mk (p + size (lower_write S x)) m') /\ rep S s m' /\ fagree m m'.
 Proof.
@@ -808,7 +912,7 @@ Proof.
               code q = Some (IYield (St r1)) ->
               runs (mk q mq) [EOut (wval w R E m o mod 256)] (mk (q + 1) mq)).
     { intros q mq Aq Oq Cq. pose proof (yield_runs q mq (St r1) _ Cq Oq) as Y. rewrite Z.mod_mod in Y by lia. exact Y. }
-    rewrite Eb in *. destruct o as [z|i|op x y|u x|g]; cbn [bub_of] in *.
+    rewrite Eb in *. destruct o as [z|i|op x y|u x|g|yj]; cbn [bub_of] in *.
     + (* a literal: masked at compile time *)
       cbn [plc res_ins res_sym] in P1. destruct P1 as [C _]. exists m1.
       rewrite size_app. cbn [size]. split; [|split; [apply (rep_agree w R lo fb gl ng nbg Hw S s m m1 Wf Rp A) | apply (agree_fagree w R lo fb gl ng nbg S s m m1 Wf Rp A)]].
@@ -899,15 +1003,30 @@ Proof.
       unfold m2. rewrite (oval_st_sw_same w Hw cmem m1 _ _ (lo_r1 w R lo m1 L1) (lo_i1 w R lo m1 L1)). f_equal.
       rewrite (lb_lw m1 _ (lo_wf w R lo m1 L1)).
       apply (wrap_small w). unfold inrange. pose proof (W_ge w Hw1). pose proof (Z.mod_pos_bound (lw m1 (a_glob R g)) 256 ltac:(lia)). lia.
+    + (* a byte-sized local read as an int: lbso *)
+      cbn [plc res_ins res_sym regaddr] in P1. destruct P1 as [Cl [Cy _]].
+      cbn [oscoped] in Sc. cbn [env_of bool_off] in *.
+      pose proof (rep_agree w R lo fb gl ng nbg Hw S s m m1 Wf Rp A) as Rp1.
+      destruct (rep_slot_y w R lo fb gl ng nbg Hw S s m1 yj (FP m1 - top S) Wf Rp1 Sc ltac:(lia)) as [O1 [O2 [O3 _]]].
+      pose proof (act_lbso w code cmem _ m1 r1 (St fp) (Imm (- byte_off (env_of S) yj)) (FP m1) (wrap (- byte_off (env_of S) yj)) Cl
+                    (oval_st w cmem m1 fp (lo_if w R lo m1 L1)) (oval_imm w cmem m1 _)) as Al.
+      rewrite (frame_addr w R lo Hw m1 _ L1 O1) in Al. specialize (Al O3 (lo_i1 w R lo m1 L1)).
+      set (m2 := sw m1 r1 (lb m1 (FP m1 - byte_off (env_of S) yj))) in *.
+      assert (A2 : agree w R lo (FP m - tp) m m2).
+      { eapply (agree_trans w R lo); [exact A|]. apply (agree_sw w R lo Hw); [apply (lo_r1 w R lo m1 L1) | auto]. }
+      exists m2. rewrite size_app. cbn [size].
+      split; [|split; [apply (rep_agree w R lo fb gl ng nbg Hw S s m m2 Wf Rp A2) | apply (agree_fagree w R lo fb gl ng nbg S s m m2 Wf Rp A2)]].
+      change [EOut (wval w R E m (OByte yj) mod 256)] with ([] ++ ([] ++ [EOut (wval w R E m (OByte yj) mod 256)])).
+      eapply runs_trans; [exact R0'|]. eapply runs_trans; [apply (runs_next act _ _ None Al)|].
+      replace (p + (size c0 + (1 + (1 + 0)))) with (p + size c0 + 1 + 1) by lia.
+      apply (Tail _ m2 A2); [|exact Cy].
+      unfold m2. rewrite (oval_st_sw_same w Hw cmem m1 _ _ (lo_r1 w R lo m1 L1) (lo_i1 w R lo m1 L1)). f_equal.
+      unfold m1. cbn [eval_mem wval env_of bool_off]. 
+      pose proof (lb_range m (FP m - byte_off (env_of S) yj) (lo_wf w R lo m L)) as Rb.
+      fold E in Rb. rewrite Z.mod_small by lia. apply (wrap_small w). unfold inrange. pose proof (W_ge w Hw1). lia.
 Qed.
 
 (* ---------- bool locals ---------- *)
-Lemma agree_sb hi m a v : 0 <= a -> lo <= a -> a + 1 <= hi -> agree w R lo hi m (Machine.sb m a v).
-Proof.
-  intros Ha Hl Hh. unfold agree, Machine.sb. split; [reflexivity|]. split.
-  - intros Wfm. apply wf_setb; [exact Wfm | exact Ha | apply Z.mod_pos_bound; lia].
-  - intros x X N0 N1 N2 N3. apply getb_setb_other; [exact Ha | exact X | lia].
-Qed.
 (* value = get_expr_value(r1, e); sbso [fp], -off, value *)
 Lemma bool_store_runs S s m off e st c st' p : wf_senv S -> rep S s m ->
   bscoped w ng nbg (length (ioffs S)) (length (boffs S)) e -> top S + Z.of_nat (temps_b e) * w <= FP m - lo ->
@@ -923,7 +1042,7 @@ Proof.
   pose proof (rep_norm w R lo fb gl ng nbg S s m e Wf Rp Sc) as N.
   destruct (bool_value_runs w R (env_of S) lo Hw (wfs_w w fb S Wf) code cmem lab lab_range e st c0 v st0 p m E0 P0 Lo V N)
     as [m1 [R1' [A1 O1]]].
-  rewrite (rep_beval w R lo fb gl ng nbg S s m e Wf Rp Sc) in O1.
+  rewrite (rep_beval w R lo fb gl ng nbg Hw S s m e Wf Rp Sc) in O1.
   pose proof (rp_regs w R lo gl ng nbg S s m Rp) as L.
   pose proof (regs_ok_agree w R lo Hw _ m m1 L A1) as L1. pose proof (FP_agree w R lo Hw _ m m1 L A1) as F1.
   assert (I1 : inb m1 (FP m1 - off) 1 = true) by (rewrite F1, (agree_inb w R lo _ m m1 _ _ A1); exact I).
@@ -1003,7 +1122,7 @@ Proof.
     replace (kexit lab (if beval w R E' m e then None else None) (p + size C0)) with (p + size C0) in Rn
       by (destruct (beval w R E' m e); reflexivity).
     apply Rn. fold m1.
-    assert (Ebv : beval w R E' m e = bevals w s e) by (unfold E'; rewrite (beval_top w R (env_of S) off m e); apply (rep_beval w R lo fb gl ng nbg S s m e Wf Rp Sc)).
+    assert (Ebv : beval w R E' m e = bevals w s e) by (unfold E'; rewrite (beval_top w R (env_of S) off m e); apply (rep_beval w R lo fb gl ng nbg Hw S s m e Wf Rp Sc)).
     rewrite Ebv.
     destruct (bevals w s e); cbn [run_simple b2z]; unfold step_simple; cbn [res_ins res_sym regaddr Machine.exec val mm];
       rewrite (lo_if w R lo m1 L1); change (lw m1 (a_fp R)) with (FP m1);
@@ -1155,7 +1274,7 @@ Proof.
 Qed.
 
 (* write(o) / writeln(o) for an int: the decimal representation, through write_int *)
-Lemma writei_runs S s m ln o ec p : lib_hyps -> wf_senv S -> rep S s m -> oscoped w ng (length (ioffs S)) o ->
+Lemma writei_runs S s m ln o ec p : lib_hyps -> wf_senv S -> rep S s m -> oscoped w ng (length (ioffs S)) (length (boffs S)) o ->
   fst (need_stmt S (SWriteI ln o)) <= FP m - lo ->
   plc ([push_ra S ec] ++ decl_int (after_ra S) o ++ call_tail S ec LibWriteInt ln) p ->
   exists m', runs (mk p m) (map EOut (decimal (ieval w s o) ++ (if ln then [10] else [])))
@@ -1171,7 +1290,7 @@ Proof.
   destruct (push_ra_runs S s m ec p Wf Rp ltac:(fold F tp; lia) Pra) as [Ra [Aa [Rpa Era]]]. fold F tp in Ra, Aa, Rpa, Era.
   set (ma := sw m (F - (tp + w)) (lab ec)) in *.
   pose proof (wf_after_ra S Wf) as Wfa. pose proof (FP_agree w R lo Hw _ m ma L Aa) as Fa.
-  assert (Sca : oscoped w ng (length (ioffs (after_ra S))) o) by exact Sc.
+  assert (Sca : oscoped w ng (length (ioffs (after_ra S))) (length (boffs (after_ra S))) o) by exact Sc.
   destruct (decl_int_runs (after_ra S) s ma o _ Wfa Rpa Sca ltac:(rewrite Fa; exact Hna) ltac:(rewrite Fa; cbn [after_ra top]; rewrite Ews; fold F tp; lia) Parg)
     as [mb [Rb [Rpb Ab]]].
   rewrite Fa in Ab. cbn [after_ra top] in Ab. rewrite Ews in Ab. fold F tp in Ab.
@@ -1293,7 +1412,7 @@ Proof.
   pose proof (rep_vars w R lo fb gl ng nbg Hw S s m c (top S) Wf Rp Sc ltac:(lia) Hn) as V.
   pose proof (lower_runs w R (env_of S) lo Hw (wfs_w w fb S Wf) code cmem lab lab_range c [] None [] (Some L)
                 st cc st' p m Ev eq_refl eq_refl P Lo V (run_mem w R (env_of S) c m)) as Rn.
-  rewrite (rep_beval w R lo fb gl ng nbg S s m c Wf Rp Sc) in Rn.
+  rewrite (rep_beval w R lo fb gl ng nbg Hw S s m c Wf Rp Sc) in Rn.
   exists (run_mem w R (env_of S) c m). split.
   - destruct (bevals w s c); cbn [kexit] in Rn; apply Rn; reflexivity.
   - apply (run_mem_agree w R (env_of S) lo Hw (wfs_w w fb S Wf) code cmem lab c m Lo V).
@@ -1330,7 +1449,7 @@ Qed.
 
 (* eval_expr(r1, a / b, keep): the operands as in a comparison, the guard, the division, the push *)
 Lemma eval_div_runs S s m op a b keep da c bub p : lib_hyps -> wf_senv S -> rep S s m -> op = SDiv \/ op = SMod ->
-  oscoped w ng (length (ioffs S)) a -> oscoped w ng (length (ioffs S)) b ->
+  oscoped w ng (length (ioffs S)) (length (boffs S)) a -> oscoped w ng (length (ioffs S)) (length (boffs S)) b ->
   need_int S (OArith op a b) keep <= FP m - lo ->
   eval_div (env_of S) (top S) R1 op a b keep da = (c, bub) -> plc c p ->
   bub = fin_bub w (top S) R1 keep /\
@@ -1406,7 +1525,7 @@ Qed.
 
 (* int x = a / b; *)
 Lemma decldiv_runs S s m op a b da p : lib_hyps -> wf_senv S -> rep S s m -> op = SDiv \/ op = SMod ->
-  oscoped w ng (length (ioffs S)) a -> oscoped w ng (length (ioffs S)) b ->
+  oscoped w ng (length (ioffs S)) (length (boffs S)) a -> oscoped w ng (length (ioffs S)) (length (boffs S)) b ->
   need_int S (OArith op a b) true <= FP m - lo -> top S + w <= FP m - lo -> plc (decl_div S op a b da) p ->
   (ieval w s b <> 0 -> exists m', runs (mk p m) [] (mk (p + size (decl_div S op a b da)) m') /\
      rep (push_int S) (mkstore (si s ++ [swrap w (arith_sem op (ieval w s a) (ieval w s b))]) (sb s) (sg s) (sgb s)) m' /\
@@ -1422,7 +1541,7 @@ Proof.
 Qed.
 (* xi = a / b; *)
 Lemma assdiv_runs S s m i op a b da p : lib_hyps -> wf_senv S -> rep S s m -> (i < length (ioffs S))%nat ->
-  op = SDiv \/ op = SMod -> oscoped w ng (length (ioffs S)) a -> oscoped w ng (length (ioffs S)) b ->
+  op = SDiv \/ op = SMod -> oscoped w ng (length (ioffs S)) (length (boffs S)) a -> oscoped w ng (length (ioffs S)) (length (boffs S)) b ->
   need_int S (OArith op a b) false <= FP m - lo -> plc (assign_div S i op a b da) p ->
   (ieval w s b <> 0 -> exists m', runs (mk p m) [] (mk (p + size (assign_div S i op a b da)) m') /\
      rep S (mkstore (upd i (swrap w (arith_sem op (ieval w s a) (ieval w s b))) (si s)) (sb s) (sg s) (sgb s)) m' /\ fagree m m') /\
@@ -1448,7 +1567,7 @@ Qed.
 
 (* ---------- return;  return o; ---------- *)
 Lemma return_runs S s m r p : wf_senv S -> rep S s m ->
-  match r with Some o => oscoped w ng (length (ioffs S)) o /\ need_int S o false <= FP m - lo | None => True end ->
+  match r with Some o => oscoped w ng (length (ioffs S)) (length (boffs S)) o /\ need_int S o false <= FP m - lo | None => True end ->
   plc (lower_return S r) p ->
   exists m', runs (mk p m) [] (mk (lw m (FP m - w)) m') /\ agree w R lo (FP m) m m' /\
              match r with Some o => sgn (lw m' (FP m - w)) = ieval w s o | None => True end.
@@ -1515,7 +1634,7 @@ Qed.
 
 (* ---------- calls of the program's functions ---------- *)
 (* the arguments, pushed one word each below the return address *)
-Lemma push_args_runs args : forall S s m p, wf_senv S -> rep S s m -> Forall (oscoped w ng (length (ioffs S))) args ->
+Lemma push_args_runs args : forall S s m p, wf_senv S -> rep S s m -> Forall (oscoped w ng (length (ioffs S)) (length (boffs S))) args ->
   need_args S args <= FP m - lo -> plc (push_args S args) p ->
   exists m', runs (mk p m) [] (mk (p + size (push_args S args)) m') /\ agree w R lo (FP m - top S) m m' /\
     forall k, (k < length args)%nat ->
@@ -1689,7 +1808,7 @@ Proof.
     apply (lb_sw_other w Hw1); [exact Ha | destruct Rg; lia | destruct (proj2 Rbd g h Hg Hh); lia].
 Qed.
 (* g = o;  for o a literal, a variable, or one binary operation *)
-Lemma assign_glob_runs S s m g o p : wf_senv S -> rep S s m -> (g < ng)%nat -> oscoped w ng (length (ioffs S)) o ->
+Lemma assign_glob_runs S s m g o p : wf_senv S -> rep S s m -> (g < ng)%nat -> oscoped w ng (length (ioffs S)) (length (boffs S)) o ->
   match o with OUn _ _ => False | _ => True end -> need_int S o false <= FP m - lo -> plc (assign_glob S g o) p ->
   exists m', runs (mk p m) [] (mk (p + size (assign_glob S g o)) m') /\ rep S (set_g s g (ieval w s o)) m' /\ fagree m m'.
 Proof.
@@ -1698,7 +1817,7 @@ Proof.
   pose proof (rp_gl w R lo gl ng nbg S s m Rp) as Hf. pose proof (wfs_fb w fb S Wf) as Ofb.
   assert (Ha : 0 <= a_glob R g) by (destruct L; lia).
   assert (HwE : wsize (env_of S) = w) by exact Ews.
-  unfold assign_glob in *. destruct o as [z|i|op x y|u x|h]; [| | | destruct Nu |].
+  unfold assign_glob in *. destruct o as [z|i|op x y|u x|h|yj]; [| | | destruct Nu | |].
   - (* a literal: mov [var_g], z *)
     cbn [eval_opd pop_value is_state_of app] in P |- *. cbn [placed res_ins res_sym regaddr] in P. destruct P as [Cm _].
     pose proof (act_mov w code cmem p m (a_glob R g) (Imm z) (wrap z) Cm (oval_imm w cmem m z) G1) as Am.
@@ -1768,6 +1887,17 @@ Proof.
       destruct (rep_set_glob S s m m g _ Wf Rp (agree_refl w R lo _ m) Hg Rv) as [Rp' Fa].
       eexists. split; [cbn [size]; replace (p + (1 + 0)) with (p + 1) by lia; apply (runs_next act _ _ None Am)|].
       split; [|exact Fa]. rewrite Sv in Rp'. exact Rp'.
+  - (* a byte-sized local read as an int: lbso [var_g], [fp], -off *)
+    cbn [eval_opd pop_value is_state_of reg_eqb app env_of bool_off] in P |- *. rewrite Nat.eqb_refl in *. cbn [app] in P |- *.
+    cbn [placed res_ins res_sym regaddr] in P. destruct P as [Cl _]. cbn [oscoped] in Sc.
+    destruct (rep_slot_y w R lo fb gl ng nbg Hw S s m yj (FP m - top S) Wf Rp Sc ltac:(lia)) as [O1 [O2 [O3 _]]].
+    pose proof (act_lbso w code cmem p m (a_glob R g) (St fp) (Imm (- byte_off (env_of S) yj)) (FP m) (wrap (- byte_off (env_of S) yj)) Cl
+                  (oval_st w cmem m fp (lo_if w R lo m L)) (oval_imm w cmem m _)) as Al.
+    rewrite (frame_addr w R lo Hw m _ L O1) in Al. specialize (Al O3 G1).
+    cbn [wval env_of bool_off] in Sv, Rv.
+    destruct (rep_set_glob S s m m g _ Wf Rp (agree_refl w R lo _ m) Hg Rv) as [Rp' Fa].
+    eexists. split; [cbn [size]; replace (p + (1 + 0)) with (p + 1) by lia; apply (runs_next act _ _ None Al)|].
+    split; [|exact Fa]. rewrite Sv in Rp'. exact Rp'.
 Qed.
 
 (* ---------- any int operand evaluated INTO a global (get_expr_value(var_g, o)) ---------- *)
@@ -1800,7 +1930,7 @@ Proof.
 Qed.
 
 Lemma eval_glob_props S s m g : wf_senv S -> rep S s m -> (g < ng)%nat -> forall o c bub c1 v p,
-  oscoped w ng (length (ioffs S)) o -> need_int S o false <= FP m - lo ->
+  oscoped w ng (length (ioffs S)) (length (boffs S)) o -> need_int S o false <= FP m - lo ->
   eval_opd (env_of S) (top S) (RGlob g) o false = (c, bub) -> pop_value (RGlob g) bub = (c1, v) -> plc (c ++ c1) p ->
   exists ma m', agree w R lo (FP m - top S) m ma /\ only_g g ma m' /\
      runs (mk p m) [] (mk (p + size (c ++ c1)) m') /\ oval m' (rs v) = Some (wval w R (env_of S) m o) /\
@@ -1821,7 +1951,7 @@ Proof.
     apply (oval_st_sw_same w Hw cmem); [exact Ha|]. unfold inb. rewrite (proj1 O), (proj1 A). exact G1. }
   assert (Inb1 : forall ma m1, agree w R lo (FP m - tp) m ma -> only_g g ma m1 -> inb m1 (a_glob R g) w = true).
   { intros ma m1 A O. unfold inb. rewrite (proj1 O), (proj1 A). exact G1. }
-  induction o as [z|i|op x IHx y IHy|u x IHx|h]; intros c bub c1 v p Sc Hn Ev Pv P.
+  induction o as [z|i|op x IHx y IHy|u x IHx|h|yj]; intros c bub c1 v p Sc Hn Ev Pv P.
   - (* literal *)
     cbn [eval_opd] in Ev. inversion Ev; subst c bub. cbn [pop_value] in Pv. inversion Pv; subst c1 v.
     exists m, m. split; [apply agree_refl|]. split; [apply only_g_refl|]. cbn [app size]. replace (p + 0) with p by lia.
@@ -1911,10 +2041,21 @@ Proof.
     cbn [oscoped] in Sc. destruct (rp_g w R lo gl ng nbg S s m Rp h Sc) as [H0 [H1 H2]].
     exists m, m. split; [apply agree_refl|]. split; [apply only_g_refl|]. cbn [app size]. replace (p + 0) with p by lia.
     split; [apply runs_refl|]. split; [cbn [res_sym regaddr wval]; apply (oval_st w cmem m _ H1) | right; eauto].
+  - (* a byte-sized local read as an int: loaded into the global with lbso *)
+    cbn [eval_opd] in Ev. inversion Ev; subst c bub. cbn [pop_value env_of bool_off E] in Pv. inversion Pv; subst c1 v.
+    cbn [app placed res_ins res_sym regaddr] in P. destruct P as [Cl _]. cbn [oscoped] in Sc.
+    destruct (rep_slot_y w R lo fb gl ng nbg Hw S s m yj (FP m - top S) Wf Rp Sc ltac:(lia)) as [O1 [O2 [O3 _]]].
+    pose proof (act_lbso w code cmem p m (a_glob R g) (St fp) (Imm (- byte_off (env_of S) yj)) (FP m) (wrap (- byte_off (env_of S) yj)) Cl
+                  (oval_st w cmem m fp (lo_if w R lo m L)) (oval_imm w cmem m _)) as Al.
+    rewrite (frame_addr w R lo Hw m _ L O1) in Al. specialize (Al O3 G1).
+    destruct (Step m m p _ (agree_refl w R lo _ m) (only_g_refl g m) Al) as [Og [Rn Ov]].
+    eexists m, _. split; [apply agree_refl|]. split; [exact Og|]. cbn [app size]. replace (p + (1 + 0)) with (p + 1) by lia.
+    split; [exact Rn|]. split; [|left; reflexivity]. cbn [res_sym regaddr wval env_of bool_off]. rewrite Ov. f_equal.
+    apply (wrap_small w). unfold inrange. match goal with |- context [lb m ?a] => pose proof (lb_range m a (lo_wf w R lo m L)) end. pose proof (W_ge w Hw1). lia.
 Qed.
 (* g = a / b;  g /= b  (checked build): the division computed into the global *)
 Lemma assign_glob_div_runs S s m g op a b da p : lib_hyps -> wf_senv S -> rep S s m -> (g < ng)%nat -> op = SDiv \/ op = SMod ->
-  oscoped w ng (length (ioffs S)) a -> oscoped w ng (length (ioffs S)) b ->
+  oscoped w ng (length (ioffs S)) (length (boffs S)) a -> oscoped w ng (length (ioffs S)) (length (boffs S)) b ->
   need_int S (OArith op a b) false <= FP m - lo -> plc (assign_glob_div S g op a b da) p ->
   (ieval w s b <> 0 -> exists m', runs (mk p m) [] (mk (p + size (assign_glob_div S g op a b da)) m') /\
      rep S (set_g s g (swrap w (arith_sem op (ieval w s a) (ieval w s b)))) m' /\ fagree m m') /\
@@ -2308,7 +2449,7 @@ Proof.
   eexists. split; [apply (runs_next act _ _ None Al)|]. split; assumption.
 Qed.
 (* g = o  for EVERY int operand o *)
-Lemma assign_glob_runs_gen S s m g o p : wf_senv S -> rep S s m -> (g < ng)%nat -> oscoped w ng (length (ioffs S)) o ->
+Lemma assign_glob_runs_gen S s m g o p : wf_senv S -> rep S s m -> (g < ng)%nat -> oscoped w ng (length (ioffs S)) (length (boffs S)) o ->
   need_int S o false <= FP m - lo -> plc (assign_glob S g o) p ->
   exists m', runs (mk p m) [] (mk (p + size (assign_glob S g o)) m') /\ rep S (set_g s g (ieval w s o)) m' /\ fagree m m'.
 Proof.
@@ -2381,7 +2522,7 @@ Proof.
   pose proof (rep_norm w R lo fb gl ng nbg S s m e Wf Rp Sc) as N.
   destruct (bool_value_runs w R (env_of S) lo Hw (wfs_w w fb S Wf) code cmem lab lab_range e st c0 v st0 p m E0 P0 Lo V N)
     as [m1 [R1' [A1 O1]]].
-  rewrite (rep_beval w R lo fb gl ng nbg S s m e Wf Rp Sc) in O1.
+  rewrite (rep_beval w R lo fb gl ng nbg Hw S s m e Wf Rp Sc) in O1.
   pose proof (rp_regs w R lo gl ng nbg S s m Rp) as L. pose proof (wfs_fb w fb S Wf) as Ofb.
   pose proof (rep_agree w R lo fb gl ng nbg Hw S s m m1 Wf Rp A1) as Rp1.
   pose proof (rp_regs w R lo gl ng nbg S s m1 Rp1) as L1. pose proof (rp_gl w R lo gl ng nbg S s m1 Rp1) as Hf1.
@@ -2451,7 +2592,7 @@ Proof.
     exists m', (p + size c). fin_normal Rn Fa. split; assumption.
   - (* write *)
     intros d x s S li st C S' st' ex p m Ev P Wf Tg Rp Hd Sc Hn. cbn [lower_stmt] in Ev. inversion Ev; subst C S' st' ex; clear Ev.
-    assert (Hx : match x with WrByte o => oscoped w ng (length (ioffs S)) o /\ need_int S o false <= FP m - lo | _ => True end).
+    assert (Hx : match x with WrByte o => oscoped w ng (length (ioffs S)) (length (boffs S)) o /\ need_int S o false <= FP m - lo | _ => True end).
     { destruct x; cbn [sscoped need_stmt fst] in *; tauto. }
     destruct (write_runs S s m x p Wf Rp Hx P) as [m' [Rn [Rp' Fa]]].
     exists m', (p + size (lower_write S x)). fin_normal Rn Fa. split; assumption.
@@ -3038,10 +3179,12 @@ Proof. split; [constructor; [apply add_label_between | constructor] | constructo
 
 Lemma decl_int_nolabels S o : deflabels (decl_int S o) = [].
 Proof.
-  unfold decl_int. pose proof (eval_opd_nolabels (env_of S) o (top S) R1 true) as H.
-  destruct (eval_opd (env_of S) (top S) R1 o true) as [c0 bub]. cbn [fst] in H.
-  pose proof (pop_value_nolabels R1 bub) as P. destruct (pop_value R1 bub) as [c1 v]. cbn [fst] in P.
-  destruct bub; defl; rewrite ?H, ?P; reflexivity.
+  assert (G : deflabels (decl_int_gen S o) = []).
+  { unfold decl_int_gen. pose proof (eval_opd_nolabels (env_of S) o (top S) R1 true) as H.
+    destruct (eval_opd (env_of S) (top S) R1 o true) as [c0 bub]. cbn [fst] in H.
+    pose proof (pop_value_nolabels R1 bub) as P. destruct (pop_value R1 bub) as [c1 v]. cbn [fst] in P.
+    destruct bub; defl; rewrite ?H, ?P; reflexivity. }
+  destruct o; try exact G; reflexivity.
 Qed.
 Lemma assign_int_nolabels S i o : deflabels (assign_int S i o) = [].
 Proof.
@@ -3411,15 +3554,16 @@ Variable lib : Prop.
 Variable cf : nat -> nat -> Prop.
 Hypothesis Hlib : lib.
 Hypothesis cfb_ok : forall f n, cfb f n = true -> cf f n.
-Lemma oscoped_b_ok ni o : oscoped_b ni o = true -> oscoped w ng ni o.
+Lemma oscoped_b_ok ni nb o : oscoped_b ni nb o = true -> oscoped w ng ni nb o.
 Proof.
-  induction o as [z|i|op x IHx y IHy|u x IHx|g]; cbn [oscoped_b oscoped]; intros H.
+  induction o as [z|i|op x IHx y IHy|u x IHx|g|yj]; cbn [oscoped_b oscoped]; intros H.
   - apply andb_true_iff in H. destruct H as [H1 H2]. apply Z.leb_le in H1. apply Z.ltb_lt in H2. lia.
   - apply Nat.ltb_lt. exact H.
   - apply andb_true_iff in H. destruct H as [H H2]. apply andb_true_iff in H. destruct H as [H0 H1].
     split; [destruct op; try discriminate H0; exact I | split; auto].
   - auto.
   - apply Nat.ltb_lt. exact H.
+  - destruct yj; apply Nat.ltb_lt; exact H.
 Qed.
 Lemma bscoped_b_ok ni nb e : bscoped_b ni nb e = true -> bscoped w ng nbg ni nb e.
 Proof.
@@ -4122,6 +4266,78 @@ Example program_globals_vm_run_ex :
   end /\
   match run_program 2 (gx_bytes 4) [] gx_prog [] mon_none 4000 with
   | OAbsorbed evs _ _ => firstn 6 evs = map EOut gx_out4 ++ [EFlag 3; EFlag 1]
+  | _ => False
+  end.
+Proof. vm_compute. repeat split; reflexivity. Qed.
+
+(* byte reads: the low byte of an int (truncation), a byte-sized local read as an int (zero-extension),
+   in a declaration (push context), in arithmetic, under write(.. is byte):
+     empty @is_you(int a0) { int y = (a0 is byte) is int; bool q = y > 40; writeln(y + ((q is byte) is int));
+                             int z = (q is byte) is int; write(((a0 is byte) is int) is byte);
+                             writeln(z - ((y is byte) is int)); return; } *)
+Definition bx_funs : list fundef :=
+  [ mkfun 1 (SCons (SDeclI (OByte (YLow 0)))
+            (SCons (SDeclB (BCmp SGt (OVar 1) (OLit 40)))
+            (SCons (SWriteI true (OArith SAdd (OVar 1) (OByte (YSlot 0))))
+            (SCons (SDeclI (OByte (YSlot 0)))
+            (SCons (SWrite (WrByte (OByte (YLow 0))))
+            (SCons (SWriteI true (OArith SSub (OVar 2) (OByte (YLow 1))))
+            (SCons (SReturn None) SNil))))))) ].
+Definition bx_code : list aline := lower_program 2 bx_funs.
+Definition bx_lib : Z := size bx_code.
+Definition bx_prog : list instr := resolve (hidc_regs 2 0 bx_lib) (fun _ => 0) 0 bx_code ++ stdlib_code 2 bx_lib.
+Definition bx_mem (a0 : Z) : mem :=
+  Machine.sw 2 (Machine.sw 2 (Machine.sw 2 (Machine.sw 2 (mkmem 94 (FMapPositive.PositiveMap.empty Z)) 0 10) 2 94) 92 bx_lib) 90 a0.
+Lemma bx_init a0 : - 1000 <= a0 <= 1000 -> init_ok 2 40 [a0] (bx_lib + off_all_is_win) (fun _ => 0) [] (fun _ => 0) [] (bx_mem a0).
+Proof.
+  intros Ha.
+  assert (Wz : wf_mem (mkmem 94 (FMapPositive.PositiveMap.empty Z))) by (intros a; unfold getb; cbn [mdata]; rewrite FMapPositive.PositiveMap.gempty; lia).
+  assert (HW : Machine.W 2 = 65536) by reflexivity.
+  unfold bx_mem. constructor; cbn [length]; change (Z.of_nat 1) with 1.
+  - repeat (apply (wf_sw 2); [|lia]). exact Wz.
+  - rewrite !(lw_sw_other 2) by lia. rewrite (lw_sw_same 2) by lia. reflexivity.
+  - rewrite !(lw_sw_other 2) by lia. rewrite (lw_sw_same 2) by lia. reflexivity.
+  - rewrite !msize_sw. cbn [msize]. lia.
+  - change ((40 + 1 + 5) * 2) with 92. rewrite (lw_sw_other 2) by lia. rewrite (lw_sw_same 2) by lia.
+    unfold off_all_is_win. rewrite Z.add_0_r. vm_compute. reflexivity.
+  - intros k Hk. destruct k as [|k]; [|cbn in Hk; lia]. cbn [nth]. change ((40 + 1 + 6) * 2 - (Z.of_nat 0 + 2) * 2) with 90.
+    rewrite (lw_sw_same 2) by lia.
+    unfold Machine.sgn, Machine.wrap. rewrite HW. change (65536 / 2) with 32768.
+    destruct (Z.ltb_spec (a0 mod 65536) 32768); lia.
+  - intros g Hg. cbn in Hg. lia.
+  - intros g g' Hg. cbn in Hg. lia.
+  - intros g Hg. cbn in Hg. lia.
+  - split; intros ? ? Hg; cbn in Hg; lia.
+Qed.
+Lemma bx_ok : prog_ok_b 2 0 0 bx_funs 1 = true.
+Proof. vm_compute. reflexivity. Qed.
+(* a0 = 300: y = 44, q: "45\n", the byte 44, z - 44 = -43: "-43\n";  a0 = -1: y = 255: "256\n", the byte 255, "-254\n" *)
+Definition bx_out300 : list Z := [52; 53; 10; 44; 45; 52; 51; 10].
+Definition bx_outm1 : list Z := [50; 53; 54; 10; 255; 45; 50; 53; 52; 10].
+Lemma bx_call a0 evs res : icall 2 bx_funs 100 ((40 + 2) * 2) 0 [a0] ([], []) = Some (evs, res) ->
+  callf 2 bx_funs ((40 + Z.of_nat (length [a0]) + 1) * 2) 0 [a0] ([], []) evs res.
+Proof. intros H. apply (proj2 (proj2 (interp_sound 2 bx_funs 100))). exact H. Qed.
+Notation bx_act := (Machine.act 2 (code_of bx_prog) (zmem 0)).
+Example program_byte_reads_ex :
+  (exists m', HidV.Sphinx.Halts.runs bx_act (mk 0 (bx_mem 300)) (map EOut bx_out300 ++ [EFlag 0]) (tnt bx_lib m')) /\
+  (exists m', HidV.Sphinx.Halts.runs bx_act (mk 0 (bx_mem (-1))) (map EOut bx_outm1 ++ [EFlag 0]) (tnt bx_lib m')).
+Proof.
+  split.
+  - destruct (program_lowering_correct 2 ltac:(lia) bx_funs 40 [300] 0 (fun _ => 0) [] (fun _ => 0) [] (zmem 0) bx_out300 (CRet None ([], [])) (bx_mem 300) bx_ok ltac:(lia)
+              ltac:(vm_compute; intro; discriminate) ltac:(vm_compute; reflexivity) (bx_init 300 ltac:(lia))
+              (bx_call 300 _ _ ltac:(vm_compute; reflexivity))) as [m' [Rn _]]. exists m'. exact Rn.
+  - destruct (program_lowering_correct 2 ltac:(lia) bx_funs 40 [-1] 0 (fun _ => 0) [] (fun _ => 0) [] (zmem 0) bx_outm1 (CRet None ([], [])) (bx_mem (-1)) bx_ok ltac:(lia)
+              ltac:(vm_compute; intro; discriminate) ltac:(vm_compute; reflexivity) (bx_init (-1) ltac:(lia))
+              (bx_call (-1) _ _ ltac:(vm_compute; reflexivity))) as [m' [Rn _]]. exists m'. exact Rn.
+Qed.
+Definition bx_bytes (a0 : Z) : list Z := map (fun a => getb (bx_mem a0) (Z.of_nat a)) (seq 0 94).
+Example program_byte_reads_vm_run_ex :
+  match run_program 2 (bx_bytes 300) [] bx_prog [] mon_none 4000 with
+  | OAbsorbed evs _ _ => firstn 9 evs = map EOut bx_out300 ++ [EFlag 0]
+  | _ => False
+  end /\
+  match run_program 2 (bx_bytes (-1)) [] bx_prog [] mon_none 4000 with
+  | OAbsorbed evs _ _ => firstn 11 evs = map EOut bx_outm1 ++ [EFlag 0]
   | _ => False
   end.
 Proof. vm_compute. repeat split; reflexivity. Qed.
